@@ -25,7 +25,8 @@ theorem text_head_ne_eq : ∀ t, WF t → ∀ (rest r : Str), t.text ++ rest ≠
   cases t <;> intro h rest r <;>
     simp only [WF] at h <;>
     simp only [Node.text, List.append_assoc, kwHasP, txtAll, txtGlobal, List.cons_append, ne_eq,
-      List.cons.injEq, not_and] <;>
+      List.cons.injEq, not_and] <;> (try split) <;>
+    (try simp only [List.cons_append, ne_eq, List.cons.injEq, not_and]) <;>
     first
       | exact lab h.1 _ r
       | (intro e; exact absurd e (by decide))
@@ -226,11 +227,21 @@ theorem tkz_text : ∀ t, WF t → ∀ (pre rest : Str), (∀ x ∈ pre, isWs x 
     simpa only [Node.text, toks] using tkz_global hpre rest
   | not n ih =>
     intro h pre rest hpre
-    simp only [Node.text, toks, List.append_assoc, List.cons_append]
-    rw [tkz_not hpre false (text_head_ne_eq n h rest)]
-    have := ih h [] rest ws_nil
-    simp only [List.nil_append] at this
-    rw [this, prep_prep]; rfl
+    rw [WF] at h
+    by_cases hn : n.isNot = true
+    · simp only [Node.text, toks, hn, if_true, List.append_assoc, List.cons_append, List.nil_append]
+      rw [tkz_not hpre false (by simp),
+        show ('(' :: (n.text ++ ')' :: rest)) = [] ++ '(' :: (n.text ++ ')' :: rest) from rfl,
+        tkz_lParen ws_nil]
+      have := ih h [] (')' :: rest) ws_nil
+      simp only [List.nil_append] at this
+      rw [this, show (')' :: rest) = [] ++ ')' :: rest from rfl, tkz_rParen ws_nil]
+      simp [prep_prep]
+    · simp only [Node.text, toks, hn, Bool.false_eq_true, if_false, List.append_assoc, List.cons_append]
+      rw [tkz_not hpre false (text_head_ne_eq n h rest)]
+      have := ih h [] rest ws_nil
+      simp only [List.nil_append] at this
+      rw [this, prep_prep]; rfl
   | and ns ih =>
     intro h pre rest hpre
     simp only [WF, wfList_iff] at h
@@ -273,14 +284,13 @@ theorem tokenize_text (t : Node) (h : WF t) : tokenize t.text = .ok (toks t ++ [
   rw [this]
   rfl
 
-/-- MAIN: the canonical text of a well-formed node parses to the node with its
-stacked negations collapsed. -/
-theorem parse_text (t : Node) (h : WF t) : parse t.text = .ok (collapse t) := by
+/-- MAIN: the canonical text of a well-formed node parses back to the node. -/
+theorem parse_text (t : Node) (h : WF t) : parse t.text = .ok t := by
   unfold parse
   rw [tokenize_text t h]
   simp only []
   have hne : ∀ r, toks t ++ [Token.eof] ≠ Token.eof :: r := by
-    cases t <;> simp [toks]
+    cases t <;> simp only [toks] <;> (try split) <;> simp
   split
   · rename_i r heq; exact absurd heq (hne r)
   · rw [parseOrExpression_toks t h]
